@@ -2,6 +2,7 @@ import BctVerif.Lemmas.ModularityLabels
 import BctVerif.Lemmas.ModularityBisect
 import BctVerif.Lemmas.ModularityScale
 import BctVerif.Lemmas.ModularityLouvainDir
+import BctVerif.Props.CoresMod
 
 /-!
 # C02 — community detectors return a valid partition and its true modularity
@@ -231,6 +232,73 @@ theorem louvain_dir_labels_and_level1 (W : RMat n) (γ : ℚ) (ds : List ℕ) (o
     (∀ p ∈ out.levels, LabelsExact p.1) ∧ (∀ p, out.levels[0]? = some p → p.2 = Qdir W γ (labOf p.1)) :=
   ⟨louvainDir_labels W γ ds out h, louvainDir_level1 W γ ds out h⟩
 
+/-- **modularity_louvain_dir, runs that keep at most one level** — the open defect D6 (`W = W1` never assigned) can only show
+from the second kept level on: a run whose hierarchy has at most one level reports exactly the directed modularity of the
+partition it returns, for every (also asymmetric) `W`.  (That its gains are exact as well needs symmetric `W`:
+`Bct.C07.louvain_dir_level1_monotone_symm`.) -/
+theorem louvain_dir_single_level (W : RMat n) (γ : ℚ) (ds : List ℕ) (out : Out n)
+    (h : louvainDir W γ ds g0 = .ok out) (h1 : out.levels.length ≤ 1) :
+    ∀ p ∈ out.levels, p.2 = Qdir W γ (labOf p.1) := by
+  intro p hp
+  refine louvainDir_level1 W γ ds out h p ?_
+  cases hl : out.levels with
+  | nil => rw [hl] at hp; simp at hp
+  | cons a tl =>
+    rw [hl] at hp h1
+    have : tl = [] := by
+      cases tl with
+      | nil => rfl
+      | cons b tl' => simp at h1
+    subst this
+    simp only [List.mem_singleton] at hp
+    simp [hp]
+
+/-- **modularity_probtune_und_sign** — for every start, every probability `p`, every `qtype` and every draw list (visiting
+order, uniform draws, random targets): the returned labels are exactly `1..k` and the returned `q` is the signed modularity of
+the returned partition. -/
+theorem probtune_sign_consistent (t : QType) (W : RMat n) (γ pr : ℚ) (c0 : Fin n → ℤ) (ds : List ℕ) (out : Out n)
+    (hW : Symm W) (h : probtuneSign t W γ pr c0 ds g0 = .ok out) :
+    ∀ p ∈ out.levels, LabelsExact p.1 ∧ p.2 = Qsign t W γ (labOf p.1) :=
+  fun p hp => ⟨(single_level_labels_exact W γ c0 ds out).2.2.2 t pr h p hp, probtuneSign_spec t W γ pr c0 ds out hW h p hp⟩
+
+/-- **community_louvain, every built-in objective, in terms of the named quality functions** — the returned `q` is
+`Qdir` (`'modularity'`), `Qpotts` (`'potts'`), `Qsign gja` (`'negative_sym'`), `Qsign sta` (`'negative_asym'`) of the returned
+partition, for every (also directed) `W`; for the two signed objectives whatever the sign of `total W` (the model, like the
+routine, only needs `total W ≠ 0` — it is the `.ok` hypothesis — and positive weights present). -/
+theorem community_louvain_named_consistent (W : RMat n) (γ : ℚ) (c0 : Fin n → ℤ) (ds : List ℕ) (out : Out n) :
+    (communityLouvain W γ .modularity c0 ds g0 = .ok out → ∀ p ∈ out.levels, p.2 = Qdir W γ (labOf p.1)) ∧
+    (communityLouvain W γ .potts c0 ds g0 = .ok out → ∀ p ∈ out.levels, p.2 = Qpotts W γ (labOf p.1)) ∧
+    (total (posPart W) ≠ 0 → communityLouvain W γ .negSym c0 ds g0 = .ok out →
+      ∀ p ∈ out.levels, p.2 = Qsign .gja W γ (labOf p.1)) ∧
+    (total (posPart W) ≠ 0 → communityLouvain W γ .negAsym c0 ds g0 = .ok out →
+      ∀ p ∈ out.levels, p.2 = Qsign .sta W γ (labOf p.1)) := by
+  refine ⟨fun h p hp => ?_, fun h p hp => ?_, fun hs0 h p hp => ?_, fun hs0 h p hp => ?_⟩
+  · have := community_louvain_consistent W γ .modularity c0 ds out h p hp
+    simpa [Objective.renorm, objMatrixRaw, Qdir] using this
+  · have := community_louvain_consistent W γ .potts c0 ds out h p hp
+    simpa [Objective.renorm, objMatrixRaw, Qpotts] using this
+  · have := community_louvain_consistent W γ .negSym c0 ds out h p hp
+    simp only [Objective.renorm, if_true] at this
+    rw [this, (objMatrixRaw_neg_eq W γ hs0).1, Qsign_eq]
+  · have := community_louvain_consistent W γ .negAsym c0 ds out h p hp
+    simp only [Objective.renorm, if_true] at this
+    rw [this, (objMatrixRaw_neg_eq W γ hs0).2, Qsign_eq]
+
+/-- **modularity_und / modularity_dir end to end** — ag-tgen's link theorems tie the statements extracted from the *source* of the two
+routines (the modularity matrix and the final `q` expression; obligation `modOk …`, regenerated and decided on every run) to
+`modularityUndGiven` / `modularityDirGiven`; together with `modularity_und_given` / `modularity_dir_given` this gives, for whatever
+label vector `c` reaches the `q` statement — the caller's `kci` or the labels the spectral branch produced (`spectral_consistent`:
+exactly `1..k` for every eigen-solver oracle): the `q` the source computes is the modularity of `c`. -/
+theorem given_and_spectral_q_linked (W : RMat n) (γ : ℚ) (c : Fin n → ℤ) (hs : total W ≠ 0)
+    (irU irD : Bct.CoreIR.Mod.ModIR) :
+    (Bct.CoreIR.Mod.modOk Bct.CoreIR.Mod.refUnd irU = true → Symm W →
+      Bct.CoreIR.Mod.runQ irU (Bct.Cores.Clust.embA W) γ (Bct.Cores.Mod.embC c) = .sc (.num (Qund W γ c))) ∧
+    (Bct.CoreIR.Mod.modOk Bct.CoreIR.Mod.refDir irD = true →
+      Bct.CoreIR.Mod.runQ irD (Bct.Cores.Clust.embA W) γ (Bct.Cores.Mod.embC c) = .sc (.num (Qdir W γ c))) := by
+  refine ⟨fun hok hW => ?_, fun hok => ?_⟩
+  · rw [Bct.Cores.Mod.link_mod_und irU hok W γ c hs, modularityUndGiven_eq W γ hW c]
+  · rw [Bct.Cores.Mod.link_mod_dir irD hok W γ c hs, modularityDirGiven_eq W γ c]
+
 /-
 **Partial / not claimed.** `modularity_louvain_dir` is modelled *as coded* (defect D6: `W = W1` never assigned,
 `knm_i = W.copy()`); the full statement
@@ -270,6 +338,18 @@ example : isOk (modularityUndSignGiven .neg Sex (fun i => (i.val : ℤ) % 2)) = 
 def specLabels {n : ℕ} : Except Err ((Fin n → ℕ) × ℚ × ℕ) → List ℕ
   | .ok r => (List.finRange n).map r.1 | .error _ => []
 example : specLabels (spectralRun false Wex 1 [some [true, false, false], none, some [true, false], none, none]) = [1, 2, 3] := by
+  decide +kernel
+-- recorded runs: a single-level `louvainDir` run (bct seed 879105211 on the 8-node witness of D6), and `community_louvain` with a signed
+-- objective on a network whose total weight is NEGATIVE
+def nlev {n : ℕ} : Except Err (Out n) → ℕ | .ok o => o.levels.length | .error _ => 0
+def Nneg : RMat 3 := AMat.ofFn fun i j => if i = j then 0 else if i.val + j.val = 1 then 2 else -3
+example : total Nneg < 0 ∧ total (posPart Nneg) ≠ 0 := by decide +kernel
+example : isOk (communityLouvain Nneg (3/4) .negSym (fun i => (i.val : ℤ)) [0, 1, 2, 2, 1, 0, 0, 1, 1, 0, 0, 0]) = true := by decide +kernel
+example : isOk (communityLouvain Nneg 1 .negAsym (fun _ => (0 : ℤ)) [2, 1, 0, 0, 1, 2, 0, 1, 1, 0, 0, 0]) = true := by decide +kernel
+def Wd8 : RMat 8 := AMat.ofFn fun i j =>
+  (([[0, 0, 0, 1, 0, 0, 0, 0], [0, 0, 1, 0, 0, 0, 0, 0], [1, 0, 0, 0, 0, 0, 0, 0], [0, 0, 0, 0, 0, 0, 1, 0],
+     [1, 1, 0, 0, 0, 0, 1, 0], [0, 1, 0, 0, 0, 0, 0, 0], [0, 0, 0, 0, 0, 1, 0, 0], [0, 0, 0, 0, 0, 0, 0, 0]] : List (List ℚ)).getD i.val []).getD j.val 0
+example : nlev (louvainDir Wd8 (5/4) [6, 7, 2, 1, 5, 0, 3, 4, 6, 0, 3, 5, 2, 7, 1, 4, 5, 4, 0, 2, 3, 6, 1, 4, 6, 3, 1, 5, 0, 2]) = 1 := by
   decide +kernel
 example : modularityDirGiven Dex 1 (fun i : Fin 3 => i.val % 2) = -8/25 := by decide +kernel
 
